@@ -17,7 +17,7 @@ INFO = {
                    'LvsModelError iff the documented sanity rules (docs/src/lvs/binary-format.rst), transcribed '
                    'independently, are broken, must never raise another exception class for a broken rule, and queries '
                    'on accepted models must terminate.  (schema texts, concrete, reported separately): one injected '
-                   'static error of each kind per catalogue schema must raise SemanticError; error-free schemas pass.',
+                   'static error of each kind per catalogue schema - cyclic signing also through every existing rule and through a key that already signs another rule - must raise SemanticError; error-free schemas pass.',
     'bounds': {'quick': {'models': 'hand-written shapes + test-file schemas + 20 generated (compiled concretely)',
                          'corruption': 'one field at a time, all positions, value symbolic in [0,2^64) or absent',
                          'query': 'match() on a symbolic name of length <= L+1 within a 2 s budget'},
